@@ -222,11 +222,10 @@ Qed.
 
 (* ---------- soundness of shrink ---------- *)
 Section Sound.
-Variable anyb : bool.
 Variable sub : cls -> cls -> bool.
 Hypothesis sub_refl : forall c, sub c c = true.
 Variable k : nat.
-Notation mem := (member anyb sub).
+Notation mem := (member false sub).
 
 Lemma field_ty_In s r o ft : field_ty s r o = Some ft -> In (s, ft) r \/ In (s, ft) o.
 Proof.
@@ -299,20 +298,25 @@ Proof.
       injection S as <-. cbn [existsb] in M. apply orb_prop in M. destruct M as [M|M]; [exact M|].
       apply existsb_exists in M. destruct M as [x [Hx Mx]].
       rewrite forallb_forall in AEQ. rewrite Forall_forall in W.
-      apply (py_eqb_member_imp anyb sub x t0 v); auto.
+      apply (py_eqb_member_imp false sub x t0 v); auto.
       * apply W. right. exact Hx. * apply W. left. reflexivity.
     + destruct (forallb is_tlist (t0 :: rest)) eqn:AL.
       * (* ---- all lists ---- *)
-        destruct (shrink k fuel (map list_arg (t0 :: rest))) as [T|] eqn:ST; [|cbn [option_map] in S; discriminate S]. cbn [option_map] in S.
+        destruct (shrink k fuel (filter (fun a => negb (is_tany a)) (map list_arg (t0 :: rest)))) as [T|] eqn:ST;
+          [|cbn [option_map] in S; discriminate S]. cbn [option_map] in S.
         injection S as <-. apply existsb_exists in M. destruct M as [x [Hx Mx]].
         rewrite forallb_forall in AL. pose proof (AL x Hx) as Lx.
         destruct x; try discriminate Lx. cbn [member] in Mx |- *. destruct v; try discriminate Mx.
         revert Mx. apply forallb_imp. intros e _ He.
-        apply (IH (map list_arg (t0 :: rest)) T e); [|exact ST|].
-        -- rewrite Forall_forall in *. intros y Hy. apply in_map_iff in Hy. destruct Hy as [z [<- Hz]].
+        apply (IH (filter (fun a => negb (is_tany a)) (map list_arg (t0 :: rest))) T e); [|exact ST|].
+        -- rewrite Forall_forall in *. intros y Hy. apply filter_In in Hy. destruct Hy as [Hy _].
+           apply in_map_iff in Hy. destruct Hy as [z [<- Hz]].
            pose proof (W z Hz) as Wz. pose proof (AL z Hz) as Lz. destruct z; try discriminate Lz. exact Wz.
         -- apply existsb_exists. exists x. split; [|exact He].
-           change x with (list_arg (TList x)). apply in_map. exact Hx.
+           apply filter_In. split.
+           ++ change x with (list_arg (TList x)). apply in_map. exact Hx.
+           ++ (* under the tight reading Any admits nothing, so a list with an element is not List[Any] *)
+              destruct x; try reflexivity. cbn [member] in He. discriminate He.
       * (* ---- Union of the dict-ified types ---- *)
         injection S as <-. apply existsb_exists in M. destruct M as [x [Hx Mx]].
         change (td2dict t0 :: map td2dict rest) with (map td2dict (t0 :: rest)).
@@ -361,9 +365,11 @@ Proof.
   - destruct (forallb (fun t => py_eqb t t0) rest).
     + injection S as <-. inversion W; assumption.
     + destruct (forallb is_tlist (t0 :: rest)) eqn:AL.
-      * destruct (shrink k fuel (map list_arg (t0 :: rest))) as [T|] eqn:ST; [|cbn [option_map] in S; discriminate S]. cbn [option_map] in S.
+      * destruct (shrink k fuel (filter (fun a => negb (is_tany a)) (map list_arg (t0 :: rest)))) as [T|] eqn:ST;
+          [|cbn [option_map] in S; discriminate S]. cbn [option_map] in S.
         injection S as <-. cbn [wf_ty]. apply (fun X => IH _ _ X ST).
         rewrite forallb_forall in AL. rewrite Forall_forall in *. intros y Hy.
+        apply filter_In in Hy. destruct Hy as [Hy _].
         apply in_map_iff in Hy. destruct Hy as [z [<- Hz]].
         pose proof (W z Hz) as Wz. pose proof (AL z Hz) as Lz. destruct z; try discriminate Lz. exact Wz.
       * injection S as <-. change (td2dict t0 :: map td2dict rest) with (map td2dict (t0 :: rest)).
